@@ -291,7 +291,7 @@ class _SymMixin:
 
     # -- arithmetic -----------------------------------------------------------------
     def _bin(self, other: Any, op: str, swap: bool = False) -> Any:
-        if not isinstance(other, (int, float, Decimal)) or isinstance(other, bool):
+        if not isinstance(other, (int, float, Decimal, SInt)) or isinstance(other, bool):
             return NotImplemented
         a, b = (other, self) if swap else (self, other)
         kind = _result_kind(a, b, op)
@@ -392,7 +392,7 @@ class _SymMixin:
     def _cmp(self, o: Any, f: Callable[[Any, Any], Any]) -> Any:
         if isinstance(o, SBool):
             return NotImplemented
-        if not isinstance(o, (int, float, Decimal)):
+        if not isinstance(o, (int, float, Decimal, SInt)):
             return NotImplemented
         ta, tb = term(self), term(o)
         return SBool(_coerce(ta, tb, f))
@@ -464,13 +464,18 @@ def _coerce(ta: z3.ArithRef, tb: z3.ArithRef, f: Callable[[Any, Any], Any]) -> A
     return f(ta, tb)
 
 
-class SInt(_SymMixin, int):
-    _kind = "int"
+class SInt(_SymMixin):
+    """Integer proxy.  Deliberately NOT a subclass of `int`: CPython's float/Decimal/int
+    arithmetic reads the machine value of any int subclass on its right-hand side
+    (`0.5 * proxy` never reaches `proxy.__rmul__`), which would leak silently.  A plain
+    object makes C code answer NotImplemented / TypeError instead; the library's own
+    `isinstance(x, int)` / `NUMERIC_CLASSES` tests are served by the shims below."""
 
-    def __new__(cls, t: z3.ArithRef) -> "SInt":
-        self = int.__new__(cls, SENTINEL_INT)
+    _kind = "int"
+    __slots__ = ("t",)
+
+    def __init__(self, t: z3.ArithRef) -> None:
         self.t = t
-        return self
 
 
 class SReal(_SymMixin, float):
@@ -699,7 +704,7 @@ class FloatShim(metaclass=_FloatShimMeta):
 
 class _IntShimMeta(type):
     def __instancecheck__(cls, inst: Any) -> bool:
-        return isinstance(inst, int)
+        return isinstance(inst, (int, SInt))
 
 
 class IntShim(metaclass=_IntShimMeta):
@@ -729,7 +734,7 @@ class MathShim:
 class Shims:
     """Context manager that rebinds names in the library's module namespaces."""
 
-    def __init__(self, *, decimal: bool = True, math: bool = True, int_: bool = False,
+    def __init__(self, *, decimal: bool = True, math: bool = True, int_: bool = True,
                  float_: bool = True) -> None:
         self.decimal, self.math, self.int_, self.float_ = decimal, math, int_, float_
         self.saved: List[Tuple[Any, str, Any, bool]] = []
@@ -748,6 +753,7 @@ class Shims:
             self._set(measured, "math", MathShim())
         if self.int_:
             self._set(measured, "int", IntShim)
+            self._set(measured, "NUMERIC_CLASSES", (IntShim, float, DecimalShim))
         if self.float_:
             self._set(measured, "float", FloatShim)
         return self
@@ -1209,6 +1215,8 @@ class Case:
                     continue  # an unforced comparison sitting on a tie: reals != doubles
                 if gb != bool(want):
                     raise HarnessError(f"self-check: truth value {k}: {gb} vs {want} at {m}")
+            elif isinstance(got, (SInt,)):
+                raise HarnessError("unreachable")
             elif isinstance(got, (int, float, Decimal)) and not isinstance(got, bool):
                 if isinstance(want, (int, float, Decimal)) and abs(float(got) - float(want)) > \
                         rel * max(abs(float(got)), 1):
